@@ -250,19 +250,21 @@ func (c *SingleDestinationRoundTripper) sendRequestBody(str Stream, body io.Read
 	buf := make([]byte, bodyCopyBufferSize)
 	sr := &cancelingReader{str: str, r: body}
 	var w io.Writer = str
-	if len(dumps) > 0 {
-		for _, d := range dumps {
-			w = io.MultiWriter(w, d.RequestBodyOutput())
-		}
-	}
-	writeTail := func() {
-		for _, d := range dumps {
-			d.Output().Write([]byte("\r\n\r\n"))
+	// Only the dumpers that want the request body get it, and they get it the
+	// same way as on HTTP/1.1 and HTTP/2: through the dumper (so that async
+	// dumpers stay ordered and a failing dump writer cannot fail the upload).
+	var bodyDumps []*dump.Dumper
+	for _, d := range dumps {
+		if d.RequestBody() {
+			bodyDumps = append(bodyDumps, d)
+			w = d.WrapRequestBodyWriter(w)
 		}
 	}
 	written, err := io.CopyBuffer(w, sr, buf)
-	if len(dumps) > 0 && err == nil && written > 0 {
-		writeTail()
+	if err == nil && written > 0 {
+		for _, d := range bodyDumps {
+			d.DumpDefault([]byte("\r\n\r\n"))
+		}
 	}
 
 	return err
